@@ -1,4 +1,5 @@
 import Ecal.Lemmas.PoolEnabled
+import Ecal.Gen.C09
 /-!
 # C09 — the thread pool runs every accepted task exactly once without outside help
 
@@ -256,6 +257,31 @@ example : ∃ s, runFrom repaired init
 example : ∃ s, runFrom repaired init
     [.swcSet 3, .swcSet 2, .killExit 0, .swcSet 1, .killExit 1] = some s ∧ s.live = 1 ∧ s.kill = 0 :=
   ⟨_, rfl, by decide, by decide⟩
+
+/-- **The synchronisation skeleton of threadpool.go is the one the model's atomic steps assume**
+    (facts re-extracted from the source on every run by `harness C09 -tool skeleton`, three-valued:
+    only a REFUTED fact, value 0, breaks this obligation; 2 = not established is reported as a note and
+    answered by a larger search). For the variant the theorems are about (`repaired`): AddTask signals
+    under `L` after its Push; the idle task waits under `L` only after re-reading queue size and
+    workerKill in that same section, inside an `if` on both; SetWorkerCount decides in one
+    workerMapLock section from `len(workerMap) - workerExiting` and its first broadcast is under `L`;
+    kill requests are taken and exits are counted under workerMapLock, the exit decision together with
+    workerKill; workerMap / workerIdleMap are only touched under workerMapLock; lock nesting is acyclic
+    (critical sections as atomic steps cannot deadlock). -/
+theorem skeleton_matches_model :
+    (repaired.signalLocked = true → Gen.C09.signalUnderL ≠ 0 ∧ Gen.C09.pushBeforeSignal ≠ 0) ∧
+    (repaired.recheck = true → Gen.C09.waitUnderL ≠ 0 ∧ Gen.C09.recheckQueueUnderL ≠ 0 ∧
+      Gen.C09.recheckKillUnderL ≠ 0 ∧ Gen.C09.waitGuardedByBoth ≠ 0) ∧
+    Gen.C09.swcOneSection ≠ 0 ∧ Gen.C09.swcCountsExiting ≠ 0 ∧ Gen.C09.swcFirstBroadcastUnderL ≠ 0 ∧
+    Gen.C09.killTakenUnderLock ≠ 0 ∧ Gen.C09.exitingCountedUnderLock ≠ 0 ∧
+    Gen.C09.exitDecidedWithKillInOneSection ≠ 0 ∧ Gen.C09.workerMapsUnderLock ≠ 0 ∧
+    Gen.C09.lockOrderAcyclic ≠ 0 := by decide
+
+/-- the reviewer's interleaving of JoinAll with two resizes: the worker that found the queue empty on the
+    exit-when-drained path re-checks workerKill and stays — two workers, as requested -/
+example : ∃ s, runFrom repaired init
+    [.swcSet 1, .joinKill, .killPass 0, .swcSet 2, .popNone 0, .swcSet 2, .drainExit 0] = some s ∧
+    s.live = 2 ∧ s.kill = 0 := ⟨_, rfl, by decide, by decide⟩
 
 /-- the schedule that loses the wake-up: the worker finds the queue empty; AddTask runs to
     completion (its Signal finds nobody waiting); then the worker goes to sleep -/
